@@ -94,52 +94,70 @@ THEOREMS = [
 ]
 LEVEL = 'proof'
 TECHNIQUE = ('Lean 4 proof: a framing invariant (Content-Length absent, or the body is clean bytes of exactly that length) '
-             'is preserved by every built-in tool step and by every sequence of steps (induction over the hook list), '
-             'established by set_response / finalize, and carried across requests by a cache-consistency invariant; '
-             'status tables regenerated from the live code; model tied to the real request pipeline by a '
-             'bounded-exhaustive differential run with a byte-counting oracle at the WSGI boundary')
-LEVEL_TEXT = ('Proved in Lean over the model, for every page text / gzip function, every request (method, Accept-Encoding, '
-              'conditions, charsets, ranges), every handler (body shape incl. str / nested / raising producers / file / '
-              'static file, status action incl. HTTPError / HTTPRedirect / unexpected exception / illegal status, own '
-              'Content-Length, stream flag), every tool subset of encode, gzip, etags, caching, expires, flatten, stream '
-              'and every request history (the cache content is part of the induction): a non-streamed response has '
-              'Content-Length = delivered bytes with a clean end, except that exactly 1xx/204/205/304 (table generated '
-              'from Response.finalize) have neither; HEAD yields byte-for-byte the finalized response of the GET (status, '
-              'Content-Type, Content-Length) with zero body bytes; a streamed response that carries a Content-Length '
-              'delivers exactly that many bytes. Partial: the streamed part needs the hypothesis that the handler does '
-              'not itself set a Content-Length that is wrong for its own value; without it the statement is proved false '
-              '(finding C06-F1: str body + own Content-Length + streaming encode). json_out, multi-level nesting, the '
-              'Range parser, the multipart text and zlib are inputs/parameters of the model; bare_error after a failing '
-              'error handler is modelled but unreachable for the modelled error pages.')
+             'is preserved by every built-in tool step and by every sequence of steps (induction over the hook list, '
+             'failsafe hooks included), established by set_response / error_response / finalize, and carried across '
+             'requests by a cache-consistency invariant; status tables and two repair flags regenerated from the live '
+             'code; model tied to the real request pipeline by a bounded-exhaustive differential run with a '
+             'byte-counting oracle at the WSGI boundary')
+LEVEL_TEXT = ('Proved in Lean over the model, for every page text / gzip function, every request (method, HTTP/1.0 or 1.1, '
+              'Accept-Encoding, conditions incl. If-Modified-Since, charsets, ranges, Accept, request entity, missing '
+              'trailing slash), every handler (body shape incl. str / nested iterators of any depth with str or failing '
+              'leaves / file / static file / XML-RPC result, status action incl. HTTPError / HTTPRedirect / unexpected '
+              'exception / illegal status, own Content-Length, stream flag), every tool mix of encode, gzip, etags, caching, '
+              'expires (4 configurations), flatten, stream, json_out, json_in, accept, response_headers, trailing_slash, '
+              'staticfile, sessions, autovary, xmlrpc, a custom / failing / redirecting error_response, and every request '
+              'history (the cache content is part of the induction): a 1xx/204/205/304 response (table generated from '
+              'Response.finalize, buffered and streamed) has neither body bytes nor Content-Length whether or not it is '
+              'streamed; any other non-streamed response has Content-Length = delivered bytes with a clean end; HEAD yields '
+              'byte-for-byte the finalized response of the GET (status, Content-Type, Content-Length) with zero body bytes; '
+              'a streamed response that carries a Content-Length delivers exactly that many bytes. Partial: the hypothesis '
+              'HandlerOk says that the application does not itself declare a length that is wrong for its own value '
+              '(handler or tools.response_headers; XML-RPC texts declared with their encoded length); without it the '
+              'streamed statement is proved false (C06_stream_full_false), and the two classes where the *framework* '
+              'produces the wrong length are recorded findings with iff-theorems on flags read from the live code: C06-F1 '
+              '(str body + own Content-Length + streaming encode) and C06-F2 (xmlrpcutil counts characters; fix proposed). '
+              'zlib, md5, the Range parser and the error / redirect page texts are parameters; the multipart/byteranges '
+              'text is computed exactly.')
 LEVEL_NOTE = ('Trusted: Lean kernel (propext, Quot.sound only), the hand model lean/CpModel/Finalize.lean as validated by the '
               'differential run (status, Content-Length presence and value, delivered byte count, end of iteration, stream / '
               'cache-hit flags, Content-Encoding, Content-Type base and charset per request), the PEP 3333 server emulation '
-              'that counts the bytes, the harness. zlib, md5 (entity tag = injective function of the body), page / '
-              'boundary texts, get_ranges and charset codecs other than UTF-8/Latin-1/ASCII are parameters.')
+              'that counts the bytes (an exception out of close() counts as an unclean end), the harness. zlib, md5 (entity '
+              'tag = injective function of the body), page texts, get_ranges, the XML-RPC marshaller and charset codecs '
+              'other than UTF-8/Latin-1/ASCII are parameters.')
 TRUSTED_BASE = [
     'zlib / gzip framing is an arbitrary function z : bytes -> bytes in the theorems (a stand-in in the driver; compressed '
     'sizes are compared only through the Content-Length = delivered relation)',
     'md5 is injective on the bodies of one case (model: entity tag = the collapsed body)',
     'httputil.get_ranges (property C16) is an input of the model: the harness calls the real function and passes its result',
-    'the texts of the default error template, redirect notes and multipart boundaries are parameters (stand-ins in the '
-    'driver; numbers compared only where the model knows the text: handler bodies, custom error pages, bare_error)',
+    'the texts of the default error template, redirect notes, XML-RPC faults for exceptions raised outside the handler are '
+    'parameters (stand-ins in the driver; numbers compared only where the model knows the text: handler bodies, custom error '
+    'pages, custom error_response, bare_error without traceback, multipart/byteranges bodies, XML-RPC results)',
+    'xmlrpc.client.dumps (the marshaller) is an input: the harness passes the marshalled text to the model',
     'PEP 3333 server emulation in harness/c06_real.py (headers leave with the first non-empty chunk; start_response with '
-    'exc_info re-raises once they left)',
+    'exc_info re-raises once they left; close() is always called and an exception out of it is an unclean end)',
 ]
 ASSUMPTIONS = [
-    'the handler does not set a Content-Length that is wrong for the value it returns (HandlerOk); the complementary class is '
-    'exercised through the recorded witness of C06-F1 only',
+    'the application does not declare a Content-Length that is wrong for the value it returns (HandlerOk: handler, '
+    'tools.response_headers, XML-RPC texts with their encoded length); the complementary classes are exercised through '
+    'the recorded witnesses of C06-F1 / C06-F2 (and every generated XML-RPC case with non-ASCII text)',
     'HEAD is compared with the status line and headers the corresponding GET first passes to start_response: a producer '
     'that fails during body iteration after that point is the handler\'s failure (the less demanding reading)',
-    'the no-body rule (1xx/204/205/304) is claimed for non-streamed responses only, as in the statement: finalize tests '
-    'stream first (Lean: stream_204_keeps_body)',
-    'file length does not change under a static response; HTTP/1.1 requests; sizes below the cache limits; no cookies',
+    'file length and modification time do not change under a static response; sizes below the cache limits; one URI and, '
+    'under tools.autovary, one set of request headers per history (= one cache variant, as in the model)',
+    'tools.sessions + tools.autovary together answer every request with a (well-framed) 500 on the unchanged code '
+    '(autovary records the header name None that sessions looks up): that combination is left out of the lattice',
+    'XML-RPC resources are called by POST; tools.accept / json_in / staticfile / response_headers are not combined with them',
 ]
 RULE = ('a case = handler (body shape - possibly a different value, of a different length, on every invocation -, status '
-        'action, Content-Type, optional own Content-Length / stream) x tool subset x error-page kind x optional user hook '
-        'x a history of 1-5 requests (method, Accept-Encoding, If-None-Match, If-Match, Accept-Charset, Range, cache '
-        'directive max-age / no-cache / Pragma / no-store, logical-clock advance); quick = systematic blocks (every status action x every body shape; every tool subset x '
-        'representative handlers; caching histories) + seeded weighted sample; thorough = the whole core lattice. '
+        'action, Content-Type, optional own Content-Length / stream) x tool subset x extension tools (accept, json_in, '
+        'response_headers, trailing_slash, staticfile, sessions, autovary, expires configuration, error_response kind, '
+        'tracebacks, forced charset, gzip level, serve_fileobj variant) x error-page kind x optional user hook '
+        'x a history of 1-5 requests (method, protocol 1.0/1.1, Accept-Encoding, If-None-Match, If-Match, '
+        'If-Modified-Since, Accept-Charset, Accept, Range, request entity, missing / extra trailing slash, cache '
+        'directive max-age / no-cache / Pragma / no-store, logical-clock advance); quick = systematic blocks (every status '
+        'action x every body shape; every tool subset x representative handlers; caching histories; the stages before the '
+        'handler x tool mixes; static tool x ranges x protocol; sessions x bodies x failing hooks; XML-RPC) + seeded '
+        'weighted sample; thorough = the whole core lattice + hook, regeneration and pre-handler lattices. '
         'Non-trivial = at least one tool, error/redirect path, non-200 status or non-bytes body is involved; '
         'distinct = distinct driver line')
 
